@@ -185,6 +185,15 @@ def stressOK (ws : List WEv) (rs : List REv) : Bool := rs.all (readExplained ws)
 def expectedStepOrder : List (String × List String) :=
   [("read", ["cache", "files"]), ("commit", ["replace", "clear"])]
 
+/-- the lock modes the atomicity of write batches with respect to a snapshot's start rests
+    on (Props.C39.C39_batch_atomicity): Cache.Snapshot under Engine.mu exclusive, a write
+    batch under Engine.mu shared -/
+def expectedLockModes : String := "snapshot=W write=R"
+
+/-- free-running write batches against a WriteSnapshot loop, then a quiescent full read:
+    every acknowledged point is readable -/
+def batchesOK (expected acked readable : Nat) : Bool := acked == expected && readable == acked
+
 /-- the lock-order clause on the extracted relation -/
 def lockOrderHolds (edges : List (String × String)) : Bool := LockOrder.isAcyclic edges
 
